@@ -73,6 +73,7 @@ func checkC05(r *Run) {
 		g3 := concGenFor(r, rng, 3, 1, int(r.Seed)+1)
 		exploreConc(r, g3, "", 30*time.Minute)
 	}
+	runSingleLoadPerRead(r)
 	runStressD2(r)
 	runProtoProofs(r)
 	r.assumption("the TLAPS / Apalache results are about the reduced protocol FoxProto, which FoxConc is checked to refine on the bounded instances")
@@ -86,6 +87,7 @@ func checkC06(r *Run) {
 		exploreConc(r, concGenFor(r, rng, 2, 1, i+int(r.Seed)), "reader-wait", pick(r, 5*time.Minute, 30*time.Minute))
 	}
 	runWritersVsHeldReaders(r)
+	runReadersVsHeldWriters(r)
 	r.assumption("a write that does not return within 3 s while a read is held in flight is a wait")
 	r.assumption("a read that does not complete within 5 s while a writer is parked, and completes once the writer is released, is a wait")
 }
